@@ -21,7 +21,9 @@ it, as revision (12 templates) go through the acceptance oracle; the same runs, 
 are assigned to epoch, upstream_version and debian_revision of two start versions (all histories of length 1; length 2
 over the bare runs followed by another run or an ordinary step), checked by the assignment model.
 """
+import copy
 import itertools
+import pickle
 
 from .. import core
 from ..models import versyntax
@@ -96,6 +98,17 @@ def bounds(tier):
         asg["deeper"] = "every history of depth %d over the %d attributes x the values %r" % (DEEP_DEPTH, len(ATTRS), DEEP_VALUES)
     return {"acceptance": acc,
             "assignments": asg,
+            "routes": {"acceptance": "every string of length <= %d over the alphabet, the %d sweep templates and the %d numeric "
+                                     "templates with the run 4294967296, along each of %d other routes: %s; an accepted string "
+                                     "is judged by the same oracle, and full_version, '%%s' %% v, format(v), '{}'.format(v), "
+                                     "v.__str__(), repr(v), debian_version and getattr() of every component agree with str(v) "
+                                     "and the attributes" % (route_n(tier), len(SWEEP_TEMPLATES), len(versyntax.DIGIT_RUN_TEMPLATES),
+                                                             len(ROUTES), "; ".join(ROUTES.values())),
+                       "assignments": "every history of depth <= %s over the %d attributes x %d values, replayed along %r "
+                                      "(object made that way / assignment made that way), with the other ways of reading "
+                                      "checked after every step and the original of a copy checked to be untouched"
+                                      % ("2 from %r and 1 from the other starts" % STARTS[1] if tier == "quick" else "3 from every start",
+                                         len(ATTRS), len(VALUES), ["%s+%s" % rs for rs in ASSIGN_ROUTES])},
             "numeric_boundaries": {
                 "digit_runs": digit_runs(tier) if tier == "quick" else
                 "%d runs: 2^k-1, 2^k, 2^k+1 for every k = 7..256, 10^k-1, 10^k for every k = 4..309, 40-, 100-, 300-, 1000-, "
@@ -127,6 +140,10 @@ def assumptions():
             "magnitude or length guard is told from a character-class slip",
             "component assignment takes any value through str() (lib/debian/debian_support.py __setattr__), so an int n is "
             "the run str(n); the unchanged library accepts v.epoch = 2147483648, v.upstream_version = 2**64 and so on",
+            "routes: BaseVersion, NativeVersion, Version (the same class under debian.changelog) and subclasses share the "
+            "acceptor, so the statement is applied to each; version_compare and a comparison with a string operand only "
+            "accept or reject (ValueError); AptPkgVersion needs apt_pkg, which is absent here; Version(None) and non-string "
+            "arguments other than version objects and str subclasses are outside the statement ('from a string')",
             "the seed rotates the non-zero digit, the letter, the blank, the foreign ASCII character and the non-ASCII "
             "letter and digit among characters of the same class; '0', newline and the punctuation are never rotated"]
 
@@ -189,6 +206,10 @@ def _units(tier, seed):
         # one more depth over the reduced value list (shorter histories over it are part of the units above)
         out += [{"k": "assign", "len": DEEP_DEPTH, "start": si, "first": oi, "values": DEEP_VALUES}
                 for si in range(len(STARTS)) for oi in range(len(ATTRS) * len(DEEP_VALUES))]
+    # the other ways in: every short string along every other route to a version object, and the assignment histories
+    # on objects that came into being differently / assigned to differently
+    out += [{"k": "route-accept", "route": r} for r in ROUTES]
+    out += [{"k": "route-assign", "route": r, "setter": st, "start": si} for r, st in ASSIGN_ROUTES for si in range(len(STARTS))]
     out += [{"k": "numeric", "template": i} for i in range(len(versyntax.DIGIT_RUN_TEMPLATES))]
     out += [{"k": "numeric-assign", "len": 1, "start": si, "attr": None} for si in range(len(NUM_STARTS))]
     if tier == "quick":
@@ -247,6 +268,10 @@ def unit_cost(u, tier):
         return 64 * 100
     if u["k"] == "numeric":
         return 60
+    if u["k"] == "route-accept":
+        return len(SYMBOLS) ** route_n(tier)
+    if u["k"] == "route-assign":
+        return 3 * (len(ATTRS) * len(VALUES)) ** (route_depth(tier, u["start"]) - 1)
     if u["k"] == "numeric-assign":
         if "lo" in u:
             return 3 * (u["hi"] - u["lo"]) * 312
@@ -261,13 +286,122 @@ def observe(v):
     return (str(v), v.epoch, v.upstream_version, v.debian_revision)
 
 
-def run_string(s):
-    """-> (violations, outcome class, non-trivial?)"""
+class _Str(str):
+    """a str subclass (what e.g. a configuration or XML library hands out)"""
+
+
+def _subclass():
     from debian.debian_support import Version
+    global _SUB
+    if _SUB is None or _SUB.__mro__[1] is not Version:
+        _SUB = type("DerivedVersion", (Version,), {})
+    return _SUB
+
+
+_SUB = None
+
+# other ways of getting a version object for a string: name -> (description, does it give an object to look at?)
+ROUTES = {
+    "NativeVersion": "NativeVersion(s)",
+    "BaseVersion": "BaseVersion(s)",
+    "keyword": "Version(version=s)",
+    "subclass": "an application's subclass of Version",
+    "str-subclass": "Version(<instance of a str subclass>)",
+    "from-BaseVersion": "Version(BaseVersion(s))",
+    "BaseVersion-from-Version": "BaseVersion(Version(s))",
+    "changelog.Version": "debian.changelog.Version(s)",
+    "changelog-block": "debian.changelog.ChangeBlock(version=s).version",
+    "copy": "copy.copy(Version(s))",
+    "deepcopy": "copy.deepcopy(Version(s))",
+    "pickle": "pickle.loads(pickle.dumps(Version(s)))",
+    "assign-full_version": "v = Version('0'); v.full_version = s",
+    "assign-full_version-version-object": "v = Version('0'); v.full_version = BaseVersion(s)",
+    "version_compare-left": "version_compare(s, '0') (accepts or raises ValueError; no object)",
+    "version_compare-right": "version_compare('0', s)",
+    "compare-with-str": "Version('0') == s (the right operand is converted)",
+}
+NO_OBJECT = ("version_compare-left", "version_compare-right", "compare-with-str")
+
+
+def construct(route, s):
+    """the object the route gives for the string s (True for the routes that only accept or reject)"""
+    from debian import debian_support as ds
+    if route == "Version":
+        return ds.Version(s)
+    if route == "NativeVersion":
+        return ds.NativeVersion(s)
+    if route == "BaseVersion":
+        return ds.BaseVersion(s)
+    if route == "keyword":
+        return ds.Version(version=s)
+    if route == "subclass":
+        return _subclass()(s)
+    if route == "str-subclass":
+        return ds.Version(_Str(s))
+    if route == "from-BaseVersion":
+        return ds.Version(ds.BaseVersion(s))
+    if route == "BaseVersion-from-Version":
+        return ds.BaseVersion(ds.Version(s))
+    if route == "changelog.Version":
+        from debian import changelog
+        return changelog.Version(s)
+    if route == "changelog-block":
+        from debian import changelog
+        return changelog.ChangeBlock(version=s).version
+    if route == "copy":
+        return copy.copy(ds.Version(s))
+    if route == "deepcopy":
+        return copy.deepcopy(ds.Version(s))
+    if route == "pickle":
+        return pickle.loads(pickle.dumps(ds.Version(s)))
+    if route in ("assign-full_version", "assign-full_version-version-object"):
+        v = ds.Version("0")
+        try:
+            v.full_version = s if route == "assign-full_version" else ds.BaseVersion(s)
+        except ValueError:
+            if observe(v) != ("0", None, "0", None):
+                raise RuntimeError("rejected assignment of full_version changed the object to %r" % (observe(v),))
+            raise
+        return v
+    if route == "version_compare-left":
+        ds.version_compare(s, "0")
+        return True
+    if route == "version_compare-right":
+        ds.version_compare("0", s)
+        return True
+    if route == "compare-with-str":
+        ds.Version("0") == s
+        return True
+    raise KeyError(route)
+
+
+def read_routes(v, s):
+    """every other public way of reading the text and the revision of an accepted version -> [(sig, exp, obs)]"""
+    bad = []
+    name = type(v).__name__
+    for how, fn, want in (("full_version", lambda: v.full_version, s), ("getattr-full_version", lambda: getattr(v, "full_version"), s),
+                          ("percent-s", lambda: "%s" % v, s), ("format", lambda: format(v), s), ("str.format", lambda: "{}".format(v), s),
+                          ("dunder-str", lambda: v.__str__(), s), ("repr", lambda: repr(v), "%s('%s')" % (name, s)),
+                          ("debian_version", lambda: v.debian_version, v.debian_revision),
+                          ("getattr-debian_version", lambda: getattr(v, "debian_version"), v.debian_revision),
+                          ("getattr-epoch", lambda: getattr(v, "epoch"), v.epoch),
+                          ("getattr-upstream_version", lambda: getattr(v, "upstream_version"), v.upstream_version),
+                          ("str-again", lambda: str(v), s)):
+        try:
+            got = fn()
+        except Exception as ex:
+            got = "<raises %s: %s>" % (type(ex).__name__, ex)
+        if got != want or type(got) is not type(want):
+            bad.append(("read/" + how, want, got))
+    return bad
+
+
+def run_string(s, route="Version"):
+    """-> (violations, outcome class, non-trivial?)"""
     verdict, reason = versyntax.classify(s)
     word = {True: "valid", False: "invalid", None: "dontcare"}[verdict]
     try:
-        v = Version(s)
+        v = construct(route, s)
         acc = True
     except ValueError:
         acc = False
@@ -276,6 +410,14 @@ def run_string(s):
                   "%s: %s" % (type(ex).__name__, ex))], "%s/raises/%s" % (word, reason), False)
     cls = "%s/%s/%s" % (word, "accepted" if acc else "rejected", reason)
     bad = []
+    if route in NO_OBJECT:
+        if verdict is False and acc:
+            bad.append(("accept/invalid-accepted/" + reason, "%s raises ValueError for %r (%s)" % (ROUTES[route], s, reason), "no exception"))
+        elif verdict is True and not acc:
+            bad.append(("accept/valid-rejected/" + reason, "%s accepts %r (%s)" % (ROUTES[route], s, reason), "ValueError"))
+        return bad, cls, False
+    if route != "Version" and acc and verdict is not False:
+        bad += read_routes(v, s)
     if verdict is False and acc:
         bad.append(("accept/invalid-accepted/" + reason, "Version(%r) raises ValueError (%s)" % (s, reason),
                     "accepted: str, epoch, upstream, revision = %r" % (observe(v),)))
@@ -339,13 +481,45 @@ def value_class(x):
                                                    "colon" if ":" in x else "hyphen" if "-" in x else "plain")
 
 
-def run_history(start, ops):
+# (how the object came into being, how the assignment is made): the histories are replayed along each of them
+ASSIGN_ROUTES = [("NativeVersion", "setattr"), ("BaseVersion", "setattr"), ("subclass", "setattr"), ("from-BaseVersion", "setattr"),
+                 ("copy", "setattr"), ("deepcopy", "setattr"), ("pickle", "setattr"), ("changelog-block", "setattr"),
+                 ("assign-full_version", "setattr"), ("Version", "dunder-setattr"), ("Version", "str-subclass-values"),
+                 ("Version", "version-object-for-full_version")]
+
+
+def _assign(v, attr, x, setter):
+    if setter == "dunder-setattr":
+        v.__setattr__(attr, x)
+    elif setter == "str-subclass-values" and isinstance(x, str):
+        setattr(v, attr, _Str(x))
+    elif setter == "version-object-for-full_version" and attr == "full_version" and isinstance(x, str):
+        from debian.debian_support import BaseVersion
+        try:
+            x = BaseVersion(x)
+        except ValueError:
+            pass                         # not a version: assigned as the string it is
+        setattr(v, attr, x)
+    else:
+        setattr(v, attr, x)
+
+
+def run_history(start, ops, route="Version", setter="setattr"):
     """Replays the whole history on a fresh object next to the model, checking every step; stops at the
     first step that is a violation or reaches a don't-care string.
     -> (index of the last step executed, status of that step, violations of that step, rolled back before it?)
     status: "accept" | "reject" | "dontcare" | "violation" | "start" (empty history)"""
     from debian.debian_support import Version
-    v = Version(start)
+    plain = route == "Version" and setter == "setattr"
+    original = None
+    if route in ("copy", "deepcopy"):
+        original = Version(start)
+        v = copy.copy(original) if route == "copy" else copy.deepcopy(original)
+    elif route == "assign-full_version":
+        v = Version("0")
+        v.full_version = start
+    else:
+        v = construct(route, start)
     m = model_start(start)
     if observe(v) != m:
         return (-1, "violation", [("assign/start", "Version(%r) has str, epoch, upstream, revision = %r" % (start, m), observe(v))], False)
@@ -357,7 +531,7 @@ def run_history(start, ops):
         exp = model_step(m, attr, x)
         before = observe(v)
         try:
-            setattr(v, attr, x)
+            _assign(v, attr, x, setter)
             res = "ok"
         except Exception as ex:         # anything but ValueError is judged below
             res = type(ex).__name__
@@ -367,6 +541,14 @@ def run_history(start, ops):
             after = observe(v)
         except Exception as ex:
             after = "%s: %s" % (type(ex).__name__, ex)
+        if not plain and isinstance(after, tuple):
+            # the other ways of reading agree with the four that the model is compared with
+            rr = read_routes(v, after[0])
+            if rr:
+                return (idx, "violation", [("assign/%s/%s" % (attr, sig), exp_, obs) for sig, exp_, obs in rr[:1]], rolled)
+            if original is not None and observe(original) != model_start(start):
+                return (idx, "violation", [("assign/%s/original-changed-through-its-copy" % attr, model_start(start),
+                                            observe(original))], rolled)
         what = "Version(%r)%s; v.%s = %r" % (start, "".join("; v.%s = %r" % (a, b) for a, b in ops[:idx]), attr, x)
         if exp[0] == "accept":
             if res != "ok" or after != exp[1]:
@@ -400,6 +582,10 @@ def run_unit(u, tier, seed):
         return unit_sweep(part, u, seed)
     if u["k"] == "numeric":
         return unit_numeric(part, u, tier, seed)
+    if u["k"] == "route-accept":
+        return unit_route_accept(part, u, tier, seed)
+    if u["k"] == "route-assign":
+        return unit_route_assign(part, u, tier, seed)
     if u["k"] == "numeric-assign":
         return unit_numeric_assign(part, u, tier, seed)
     return unit_assign(part, u, seed)
@@ -473,6 +659,80 @@ def unit_numeric_assign(part, u, tier, seed):
         for sig, exp, obs in _numeric(bad):
             part.violation(sig, case, exp, obs, rank=sum(len(str(y)) for _a, y in h))
     part.sample(case)
+    return part
+
+
+def route_n(tier):
+    return 3 if tier == "quick" else 5
+
+
+def route_depth(tier, si):
+    """history depth of the route-assign units: quick - depth 2 from the start with all three parts, 1 from the others"""
+    if tier == "quick":
+        return 2 if si == 1 else 1
+    return 3
+
+
+def unit_route_accept(part, u, tier, seed):
+    syms = [tr(x, seed) for x in SYMBOLS]
+    route = u["route"]
+    wrap = _via(route)
+    n = route_n(tier)
+    part.max_depth = n
+    todo = ["".join(t) for k in range(0, n + 1) for t in itertools.product(syms, repeat=k)]
+    # a few longer strings of each kind (the numeric templates with a boundary run, the sweep templates)
+    todo += [tr(t, seed) for t in SWEEP_TEMPLATES] + [versyntax.digit_run_string(tr(t, seed), "4294967296")
+                                                       for _p, t in versyntax.DIGIT_RUN_TEMPLATES]
+    for s in todo:
+        bad, cls, nontrivial = run_string(s, route)
+        part.states += 1
+        part.transitions += 1
+        part.traces += 1
+        part.evaluations += 1
+        part.outcomes["via-%s/%s" % (route, cls.rsplit("/", 1)[0])] += 1
+        part.nontrivial += nontrivial
+        for sig, exp, obs in wrap(bad):
+            part.violation(sig, {"k": "string", "s": s, "route": route}, exp, obs, rank=len(s))
+    part.sample({"k": "string", "s": todo[len(todo) // 3], "route": route})
+    return part
+
+
+def unit_route_assign(part, u, tier, seed):
+    start = tr(STARTS[u["start"]], seed)
+    route, setter = u["route"], u["setter"]
+    wrap = _via(route, setter)
+    allops = [(a, tr(x, seed)) for a in ATTRS for x in VALUES]
+    depth = route_depth(tier, u["start"])
+    part.max_depth = depth
+    dead = set()
+    for length in range(1, depth + 1):
+        for h in itertools.product(allops, repeat=length):
+            h = list(h)
+            if any(repr(h[:k]) in dead for k in range(1, length)):
+                continue
+            idx, status, bad, rolled = run_history(start, h, route, setter)
+            if idx < length - 1 or status == "start":
+                dead.add(repr(h[:idx + 1]))
+                continue
+            part.transitions += 1
+            part.traces += 1
+            part.evaluations += 1
+            attr, x = h[-1]
+            part.outcomes["via-%s%s/assign/%s/%s" % (route, "" if setter == "setattr" else "+" + setter, attr, status)] += 1
+            case = {"k": "history", "start": start, "ops": [list(op) for op in h], "route": route, "setter": setter}
+            if status == "violation":
+                dead.add(repr(h))
+                for sig, exp, obs in wrap(bad):
+                    part.violation(sig, case, exp, obs, rank=length)
+                continue
+            if status == "dontcare":
+                dead.add(repr(h))
+                continue
+            part.states += 1
+            if rolled:
+                part.nontrivial += 1
+            if len(part.samples) < 2 and status == "reject":
+                part.sample(case)
     return part
 
 
@@ -553,11 +813,19 @@ def unit_assign(part, u, seed):
     return part
 
 
+def _via(route, setter="setattr"):
+    tag = "via-%s%s/" % (route, "" if setter == "setattr" else "+" + setter)
+    return lambda bad: [(tag + sig, exp, obs) for sig, exp, obs in bad]
+
+
 def replay(case):
     wrap = _numeric if case.get("family") == "numeric" else list
+    if case.get("route"):
+        wrap = _via(case["route"], case.get("setter", "setattr"))
     if case["k"] == "string":
-        return wrap(run_string(case["s"])[0])
-    return wrap(run_history(case["start"], [tuple(op) for op in case["ops"]])[2])
+        return wrap(run_string(case["s"], case.get("route", "Version"))[0])
+    return wrap(run_history(case["start"], [tuple(op) for op in case["ops"]], case.get("route", "Version"),
+                            case.get("setter", "setattr"))[2])
 
 
 def repro_py(case):
